@@ -72,6 +72,10 @@ type In struct {
 	// handler, so that registrations complete while such an event is in flight
 	Events       int `json:"events"`
 	EventDwellUs int `json:"event_dwell_us"`
+	// Quit (kind hold): one more plugin connects first, registers and is configured while the block
+	// is held - its synchronisation is pending behind the block - and disconnects before the block
+	// is released. The others must still be synchronised afterwards, later blocks must be granted.
+	Quit bool `json:"quit"`
 }
 
 type SyncObs struct {
@@ -108,9 +112,12 @@ type env struct {
 	live     atomic.Bool // SyncFn invocations before Start() returned are the start-up one
 	syncN    atomic.Int64
 	syncDone atomic.Int64
-	logMu    sync.Mutex
-	sev      [][]int64
-	snaps    [][]int64
+	// Synchronize handlers of the case's own plugins that have run (a plugin that is not one of
+	// them - the quitter of a hold case - may account for a SyncFn invocation of its own)
+	plugSynced atomic.Int64
+	logMu      sync.Mutex
+	sev        [][]int64
+	snaps      [][]int64
 
 	nextB atomic.Int64
 	nextC atomic.Int64
@@ -199,6 +206,15 @@ func spin(us int) {
 	t := time.Now()
 	for time.Since(t) < time.Duration(us)*time.Microsecond {
 	}
+}
+
+// synced: how many of the case's plugins have been synchronised (handler ran and SyncFn returned)
+func (e *env) synced() int64 {
+	a, b := e.syncDone.Load(), e.plugSynced.Load()
+	if b < a {
+		return b
+	}
+	return a
 }
 
 // one block with k creations inside; returns the log entries. With dbl the goroutine uses the
@@ -329,6 +345,7 @@ func runCase(in In, dir string, j *rt.Journal) (obs Obs) {
 				for _, c := range ctrs {
 					ids = append(ids, cid(c.Id))
 				}
+				e.plugSynced.Add(1)
 				e.j.Put(jPlugSync, s, int64(i), n)
 				for _, id := range ids {
 					e.j.Put(jPlugSyncID, n, int64(i), id)
@@ -435,7 +452,7 @@ func runCase(in In, dir string, j *rt.Journal) (obs Obs) {
 					if e.nextC.Load() >= int64(in.MaxC) {
 						return
 					}
-					if e.syncDone.Load() >= int64(in.P) {
+					if e.synced() >= int64(in.P) {
 						if extra >= in.Extra {
 							return
 						}
@@ -455,6 +472,18 @@ func runCase(in In, dir string, j *rt.Journal) (obs Obs) {
 		bid := e.nextB.Add(1) - 1
 		b := r.A.BlockPluginSync()
 		mainLog = e.app(mainLog, []int64{evBlock, rt.Stamp(), bid})
+		if in.Quit {
+			if q, err := rt.NewPlugin(r.Sock, "00", "quitter", rt.Hooks{}); err == nil {
+				qdone := make(chan struct{})
+				go func() { q.Start(); close(qdone) }()
+				select {
+				case <-qdone: // registered and configured; its synchronisation waits for the block
+				case <-time.After(3 * time.Second):
+				}
+				time.Sleep(2 * time.Millisecond)
+				q.Stop()
+			}
+		}
 		startPlugins()
 		// the plugins connect meanwhile; registrations are accepted one at a time, so the
 		// first one gets as far as requestPluginSync and waits there, the others wait
@@ -488,23 +517,23 @@ func runCase(in In, dir string, j *rt.Journal) (obs Obs) {
 	case <-time.After(deadline):
 		stop.Store(true)
 		obs.Status = "blocked"
-		obs.Note = fmt.Sprintf("after %v: %d of %d plugins synchronised", deadline, e.syncDone.Load(), in.P)
+		obs.Note = fmt.Sprintf("after %v: %d of %d plugins synchronised", deadline, e.synced(), in.P)
 		select {
 		case <-done:
 		case <-time.After(5 * time.Second):
 		}
 	}
 	if obs.Status == "ok" {
-		if e.syncDone.Load() < int64(in.P) {
+		if e.synced() < int64(in.P) {
 			// creators stopped at the cap before every plugin synchronised: give the
 			// registrations the time they need now that no block is being taken
 			t := time.Now()
-			for e.syncDone.Load() < int64(in.P) && time.Since(t) < deadline {
+			for e.synced() < int64(in.P) && time.Since(t) < deadline {
 				time.Sleep(time.Millisecond)
 			}
-			if e.syncDone.Load() < int64(in.P) {
+			if e.synced() < int64(in.P) {
 				obs.Status = "blocked"
-				obs.Note = fmt.Sprintf("no block held for %v: %d of %d plugins synchronised", deadline, e.syncDone.Load(), in.P)
+				obs.Note = fmt.Sprintf("no block held for %v: %d of %d plugins synchronised", deadline, e.synced(), in.P)
 			}
 		}
 		// wait for the last exclusive section to be left (activation happens inside it)
@@ -621,6 +650,7 @@ func generate(o *hx.Opts) []In {
 		}
 		if i%10 == 9 {
 			in.Kind = "hold"
+			in.Quit = i%20 == 9
 			in.HoldMs = 5 + r.Intn(40)
 			in.G = 1 + r.Intn(3)
 		}
